@@ -18,7 +18,8 @@ contract(X + 'Chipset.command', 'C14',
          ensures=[('O-wf', 'self.transport.written[0] == pn53x_cmd_frame(cmd_code, cmd_data)'),
                   ('O-accept', 'pn53x_rsp_payload(self.transport.last, cmd_code) is not None and '
                                'result == pn53x_rsp_payload(self.transport.last, cmd_code)')],
-         raises={'IOError': ['len(self.transport.written) >= 1',
+         # the host link may fail at any write or read: whatever did reach it before is the command frame
+         raises={'IOError': ['len(self.transport.written) == 0 or '
                              'self.transport.written[0] == pn53x_cmd_frame(cmd_code, cmd_data)'],
                  X + 'Chipset.Error': ['pn53x_is_error_frame(self.transport.last)']},
          loops={(CMDQ, 'While', 0): LoopSpec(
@@ -34,7 +35,7 @@ contract(A + 'Chipset.ccid_xfr_block', 'C14',
          ensures=[('O-wf', 'len(self.transport.written) == 1 and self.transport.written[0] == ccid_escape(data)'),
                   ('O-accept', 'ccid_rsp_data(self.transport.last) is not None and '
                                'result == ccid_rsp_data(self.transport.last)')],
-         raises={'IOError': ['self.transport.written[0] == ccid_escape(data)']})
+         raises={'IOError': ['len(self.transport.written) == 0 or self.transport.written[0] == ccid_escape(data)']})
 contract(A + 'Chipset.command', 'C14',
          dict(self=acr(), cmd_code=Int(0, 0xFE), cmd_data=Bytes(0, 253), timeout=Int(1, 30)),
          name='C14/acr122.command', requires=['cmd_code in self.CMD'],
